@@ -831,6 +831,10 @@ def run(c):
 
     def violation(cls, what, k, m, detail):
         cov["findings"][cls] = cov["findings"].get(cls, 0) + 1
+        if detail.get("scenario"):
+            by = cov.setdefault("findings_by_scenario", {}).setdefault(cls, {})
+            sn = str(detail["scenario"]).split(":")[0]
+            by[sn] = by.get(sn, 0) + 1
         c.spec_violation(cls, what, witness(k, m, detail))
 
     # ------------------------------------------------------------ build every batch (in parallel: one target dir per slot)
